@@ -10,9 +10,58 @@ import vf
 from checks import pipecommon as pc
 
 
-def cfg(size):
-    return vf.cfg_consts(MaxSize=size, FreeVars=0, MaxIdx=3, TyFuel=400, Formers={"type", "int", "bool", "true", "lit", "var", "lam", "pi", "app", "bin", "neg", "if", "let1"},
-                         Ops={"sum", "lt"}, Lits={1}) + "INIT BInit\nNEXT BNext\nINVARIANTS Emit\nCHECK_DEADLOCK FALSE\n"
+def cfg(size, skel=0):
+    return vf.cfg_consts(MaxSize=size, Skel=skel, FreeVars=0, MaxIdx=3, TyFuel=400, Formers={"type", "int", "bool", "true", "lit", "var", "lam", "pi", "app", "bin", "neg", "if", "let1"},
+                         Ops={"sum", "lt"}, Lits={1}) + "INIT SInit\nNEXT BNext\nINVARIANTS Emit Emit2\nCHECK_DEADLOCK FALSE\n"
+
+
+def has_recursion(t):
+    """some definition group of the JSON term has a dependency cycle"""
+    def refs(x, depth, n, acc):
+        if isinstance(x, dict):
+            k = x.get("k")
+            if k == "var":
+                if depth <= x["i"] < depth + n:
+                    acc.add(n - 1 - (x["i"] - depth))
+            elif k in ("lam", "pi"):
+                refs(x["a"], depth, n, acc)
+                refs(x["b"], depth + 1, n, acc)
+            elif k == "let":
+                m = len(x["defs"])
+                for dd in x["defs"]:
+                    refs(dd["ann"], depth + m, n, acc)
+                    refs(dd["def"], depth + m, n, acc)
+                refs(x["b"], depth + m, n, acc)
+            else:
+                for key, v in x.items():
+                    if key not in ("k", "n", "v", "op", "imp"):
+                        refs(v, depth, n, acc)
+    def walk(x):
+        if isinstance(x, dict):
+            if x.get("k") == "let":
+                m = len(x["defs"])
+                g = []
+                for dd in x["defs"]:
+                    acc = set()
+                    refs(dd["def"], 0, m, acc)
+                    refs(dd["ann"], 0, m, acc)
+                    g.append(acc)
+                # cycle detection
+                state = [0] * m
+                def dfs(j):
+                    state[j] = 1
+                    for k2 in g[j]:
+                        if state[k2] == 1 or (state[k2] == 0 and dfs(k2)):
+                            return True
+                    state[j] = 2
+                    return False
+                if any(state[j] == 0 and dfs(j) for j in range(m)):
+                    return True
+            return any(walk(v) for v in x.values())
+        if isinstance(x, list):
+            return any(walk(v) for v in x)
+        return False
+    return walk(t)
 
 
 def alg_cfg(size, copy, invs):
@@ -33,16 +82,41 @@ def run(c):
             c.spec_violation(sa, "the unification algorithm of the specification violates the predicates")
             return
     c.cov["bounds"] = {"host_program_size": size, "hole_shifts": "0..binder depth", "holes_per_pair": "1..2"}
-    st = vf.tlc_generate("MC_Punch", cfg(size), "punch-%d" % size, timeout=6000, workers=14)
-    c.add_tlc(st, "punched pairs from all well-typed programs <= %d nodes; generation" % size)
     d = os.path.join(vf.WORK, "unify")
     os.makedirs(d, exist_ok=True)
     tr, summ = os.path.join(d, "trace.ndjson"), os.path.join(d, "summary.json")
-    vf.gv(["record-unify", st["out"], tr, summ], timeout=3000)
-    s = json.load(open(summ))
-    c.cov["unify"] = {k: s[k] for k in s if k != "crashed"}
-    c.cov["inconclusive"] += s["crashes"]
-    c.cov["replayed_cases"] += s["calls"]
+    open(tr, "w").close()
+    # closed hosts, and hosts below one / two binders (bodies that mention variables bound outside the punched region)
+    for skel, total, what in ((0, size, "all well-typed programs <= %d nodes" % size), (1, size + 2, "(x : type) => body, body <= %d nodes" % size),
+                              (2, size + 2, "(x : type) => (y : type) => body, body <= %d nodes" % (size - 2))):
+        st = vf.tlc_generate("MC_Punch", cfg(total, skel), "punch-%d-%d" % (skel, total), timeout=6000, workers=14)
+        c.add_tlc(st, "punched pairs from %s; generation" % what)
+        trk = os.path.join(d, "trace-%d.ndjson" % skel)
+        vf.gv(["record-unify", st["out"], trk, summ], timeout=3000)
+        s = json.load(open(summ))
+        c.cov["unify-skel%d" % skel] = {k: s[k] for k in s if k != "crashed"}
+        c.cov["inconclusive"] += s["crashes"]
+        c.cov["replayed_cases"] += s["calls"]
+        open(tr, "a").write(open(trk).read())
+    # larger hosts recorded from the real parser: occurs-check, single-punch and two-step configurations computed by TLC
+    progs, hosts = os.path.join(d, "progs.jsonl"), os.path.join(d, "hosts.ndjson")
+    nn = 1 if c.quick else 10
+    with open(progs, "w") as f:
+        for kind, count, *extra in [("typed", 12 * nn, 2), ("corpus", 0), ("alias", 10 * nn)]:
+            f.write(vf.gv(["gen-programs", kind, c.seed, count] + list(extra)).stdout)
+    # hosts with a recursive definition are left out: with a hole for an argument gram's normaliser unfolds them for ever
+    lines_h = [l for l in vf.gv(["parse-hosts", progs]).stdout.splitlines() if l.strip() and len(l) < 6000 and not has_recursion(json.loads(l)["t"])]
+    open(hosts, "w").write("\n".join(lines_h) + "\n")
+    ho = os.path.join(d, "hosts.out")
+    sh = vf.tlc("MC_PunchHosts", "INIT Init\nNEXT Next\nINVARIANT Emit\nCHECK_DEADLOCK FALSE\n", ho, workers=1, timeout=3000, env={"HOSTS": hosts})
+    c.add_tlc(sh, "pairs of %d recorded host terms computed by TLC" % len(lines_h))
+    tr2, summ2 = os.path.join(d, "trace-hosts.ndjson"), os.path.join(d, "summary-hosts.json")
+    vf.gv(["record-unify", ho, tr2, summ2], timeout=3000, env={"GV_UNIFY_CPU_S": "2", "GV_WORKER_MEM_GB": "3"})
+    s2 = json.load(open(summ2))
+    c.cov["unify_hosts"] = {k: s2[k] for k in s2 if k != "crashed"}
+    c.cov["inconclusive"] += s2["crashes"]
+    c.cov["replayed_cases"] += s2["calls"]
+    open(tr, "a").write(open(tr2).read())
     tv = vf.validate_trace("Trace_Unify", tr, "c12", chunk_events=700, par=10)
     c.add_trace(tv, "Trace_Unify")
     lines = open(tr).read().splitlines()
